@@ -10,6 +10,34 @@ func init() {
 	Register("C02", checkC02)
 	Register("C03", checkC03)
 	Register("C06", checkC06)
+	Register("C07", checkC07)
+}
+
+func checkC07(c *Ctx) {
+	maxN := 3
+	if !c.Quick() {
+		maxN = 5
+	}
+	var jobs []Job
+	for _, g := range RecoveryCorpus {
+		ga := g.WithRecordingActions()
+		t, err := c.parserTarget(ga, true, append(parserHarness, "genparser/c07.go")...)
+		if err != nil {
+			c.Inconclusive = append(c.Inconclusive, err.Error())
+			continue
+		}
+		for n := 0; n <= maxN; n++ {
+			jobs = append(jobs, Job{
+				Name:           fmt.Sprintf("recover %s N=%d", g.Name, n),
+				Target:         t,
+				Run:            SymRun{Harness: "VerifC07Recover", Params: map[string]int{"N": n, "STEPS": 8*(n+1) + 8}, LoopBound: 8*(n+1) + 16, ForkFuncs: []string{"Parse", "VerifC07Recover", "verifRefParse", "Error"}},
+				Bounds:         fmt.Sprintf("grammar %s (error alternatives), every sequence of %d terminal tokens; every loop of Parse/Error/popNonRecoveryStates unwound %d times with unwinding assertion (= Parse returns)", g.Name, n, 8*(n+1)+16),
+				RequiredCovers: []string{"end"},
+			})
+		}
+	}
+	c.BoundsText = append(c.BoundsText, fmt.Sprintf("corpus grammars with error alternatives; all token sequences of length 0..%d; no panic record of Parse/Error/popNonRecoveryStates/firstRecoveryState is reachable; lock-step comparison with a reference LR driver (same generated tables, own transcription of the recovery rule of the property); inertness on sentences of the error-free twin (CYK)", maxN))
+	c.RunJobs(filterJobs(jobs), 4)
 }
 
 var parserHarness = []string{"genparser/common.go", "genparser/c02.go", "genparser/c03.go"}
